@@ -108,6 +108,7 @@ PURE_METHODS = {
     "contains_key", "type_", "subtype", "get_param", "len", "is_empty", "name", "is_negative", "abs", "to_time",
     "exact_remaining_length", "into_byte_stream", "bytes", "starts_with", "find_multiple_with_on_missing",
     "credentials", "find_field_value", "fields", "take_bytes", "as_u16", "status_code", "message", "code",
+    "fmt_date", "fmt_iso8601",
 }
 PURE_FUNCS = {
     # (normalised path) -> doc
